@@ -461,6 +461,9 @@ Spans of submodels differ:
             **kwargs,
         )
 
+        # Ensure `iteration` is defined even if `max_iter` < 1 (no iterations)
+        iteration = 0
+
         for iteration in range(1, max_iter + 1):
             previous_values = copy.deepcopy(current_values)
 
